@@ -164,6 +164,9 @@ class Parser:  # pylint: disable=too-many-public-methods
         return expr
 
     def finishcall(self, expr):
+        if isinstance(expr, Variable) and expr.level is not None:
+            # 'x[level](...)': the level would be dropped silently
+            raise ParseError("A subset of a variable such as 'x[level]' can't be called.")
         args = []
         if not self.check("RIGHT_PAREN"):
             while True:
